@@ -154,3 +154,33 @@ class Pow(Contract):
         val = (lambda j: S.POWN(x, r.t, j)) if nat else (lambda j: S.POWR(x, toR(r.t), j))
         return [('result.data = x ** r', c.forall(0, c.D, lambda j: res[j] == val(j))), ('result is a new object', z3.BoolVal(c.ret.attrs['data'].base != c._names['self.data']))]
 REG['UTPM.__pow__'] = Pow()
+
+
+# ------------------------------------------------------------------------------------------------ pullback wrappers (what the tracer calls)
+class _Adapt:
+    """presents the wrapper's arrays under the parameter names of the kernel-level pullback contract"""
+    def __init__(s, c, m): s.pre = {k: c.pre[v] for k, v in m.items()}; s.c = c
+    def __getattr__(s, nm): return getattr(s.c, nm)
+
+class PbW(Contract):
+    """UTPM.pb_f(ybar, x, y, out=(xbar,)): the adjoint held by the object in `out` is updated by the kernel-level formula
+    xbar' = xbar + ybar (*) f'(x); the seed and the forward values are not written; proved through the kernel pullback's contract"""
+    file = 'algopy/utpm/utpm.py'; objs = ('ybar', 'x', 'y'); objtuples = {'out': 1}
+    arrays = ('ybar.data', 'x.data', 'y.data', 'out.0.data'); modifies = ('out.0.data',); returns = 'any'
+    cfgs = {'distinct': {}}; dataflow = True; timeout_ms = 6000; cex_D = ()
+    property_ids = ('C03', 'C06', 'C14')
+    kernel = None
+    amap = {'ybar_data': 'ybar.data', 'x_data': 'x.data', 'y_data': 'y.data', 'out': 'out.0.data'}
+    def requires(self, c): return list(self.kernel.requires(_Adapt(c, self.amap)))
+    def ensures(self, c):
+        k = self.kernel; ad = _Adapt(c, self.amap); o0 = c.pre['out.0.data']; o = c.cur('out.0.data')
+        inc = (lambda j: k.incr(ad, j)) if hasattr(k, 'incr') else (lambda j: k.G(ad, j))
+        return [("out[0].data' = out[0].data + ybar (*) f'(x)   (formula of %s)" % k.qual.split('.')[-1], c.forall(0, c.D, lambda j: o[j] == o0[j] + inc(j)))]
+    def spec_instances(self, c, n): return list(self.kernel.spec_instances(_Adapt(c, self.amap), n)) if hasattr(self.kernel, 'defs') else []
+
+def _pbw(name, kernel_key):
+    from . import pullbacks as PBK
+    cls = type('PbW_' + name, (PbW,), {'qual': 'UTPM.pb_' + name, 'kernel': PBK.REG[kernel_key]})
+    return register(cls)
+for _n in ('exp', 'log', 'sqrt', 'square', 'negative', 'expm1', 'log1p', 'reciprocal', 'erf', 'erfi', 'logit', 'expit'):
+    _pbw(_n, '_pb_' + _n)
